@@ -729,16 +729,17 @@ example : docSegment (.seq [.num 0, .num 1, .num 1, .num 0, .num 360]) = true :=
 
 /-! ## scalar attributes (current, diameter): check_format_input_scalar -/
 
-/-- C17 (scalar attributes), for every value except a complex number: accepted ⇔ None (where allowed) or
+/-- C17 (scalar attributes), for every value: accepted ⇔ None (where allowed) or
 an int/float/numpy real scalar/bool, not negative where the attribute is a size; every other value —
-strings (also numeric ones), numpy.bool_, sequences, 0-d arrays, other objects — raises the library's
-input error; the stored value is `float(value)`. -/
-theorem scalar_accepts_iff_documented_partial (an fn : Bool) (v : PyVal) (hv : v ≠ .cplx) :
+strings (also numeric ones), numpy.bool_, complex numbers, sequences, 0-d arrays, other objects — raises the
+library's input error; the stored value is `float(value)`.  (Full strength since the repair of
+check_format_input_scalar: before it, complex numbers escaped as a TypeError from `float(inp)`.) -/
+theorem scalar_accepts_iff_documented (an fn : Bool) (v : PyVal) :
     ((∃ s, checkScalar an fn v = .ok s) ↔ docScalar an fn v = true) ∧
     (docScalar an fn v = false → checkScalar an fn v = .error .badUserInput) ∧
     (∀ s, checkScalar an fn v = .ok s → s = scalarValue v) := by
   cases v with
-  | cplx => exact absurd rfl hv
+  | cplx => cases an <;> cases fn <;> simp [checkScalar, docScalar, isNumber, pyFloat]
   | num n =>
     have key : checkScalar an fn (.num n) =
         if (fn && decide (n < 0)) = true then .error .badUserInput else .ok (.scalar (.fin n)) := by
@@ -775,34 +776,34 @@ theorem scalar_accepts_iff_documented_partial (an fn : Bool) (v : PyVal) (hv : v
   | seq xs => cases an <;> cases fn <;> simp [checkScalar, docScalar, isNumber]
   | arr sh d => cases an <;> cases fn <;> simp [checkScalar, docScalar, isNumber]
 
-/-- the exclusion of complex numbers above is necessary, and is the only one: the scalar validator lets a
-foreign exception (TypeError from `float(inp)`) escape exactly for complex inputs, which pass
-`isinstance(inp, numbers.Number)` -/
-theorem scalar_foreign_iff_complex (an fn : Bool) (v : PyVal) :
-    (∃ x, checkScalar an fn v = .error (.foreign x)) ↔ v = .cplx := by
+/-- the scalar validator never lets a foreign exception escape: every rejection is the library's input error
+(complex numbers, which pass `isinstance(inp, numbers.Number)` and make `float(inp)` raise TypeError, included) -/
+theorem scalar_never_foreign (an fn : Bool) (v : PyVal) (e : Err) (h : checkScalar an fn v = .error e) :
+    e = .badUserInput := by
   cases v with
-  | cplx => cases an <;> cases fn <;> simp [checkScalar, isNumber, pyFloat]
   | num n =>
     have key : checkScalar an fn (.num n) =
         if (fn && decide (n < 0)) = true then .error .badUserInput else .ok (.scalar (.fin n)) := by
       cases an <;> cases fn <;> simp [checkScalar, isNumber, pyFloat, FVal.lt]
-    rw [key]
-    split <;> simp
-  | none => cases an <;> cases fn <;> simp [checkScalar, isNumber]
-  | bool b => cases an <;> cases fn <;> cases b <;> simp [checkScalar, isNumber, pyFloat, FVal.lt]
-  | npbool b => cases an <;> cases fn <;> simp [checkScalar, isNumber]
-  | str t => cases an <;> cases fn <;> simp [checkScalar, isNumber]
-  | obj => cases an <;> cases fn <;> simp [checkScalar, isNumber]
-  | seq xs => cases an <;> cases fn <;> simp [checkScalar, isNumber]
-  | arr sh d => cases an <;> cases fn <;> simp [checkScalar, isNumber]
+    rw [key] at h
+    split at h <;> simp_all
+  | cplx => cases an <;> cases fn <;> simp_all [checkScalar, isNumber, pyFloat]
+  | none => cases an <;> cases fn <;> simp_all [checkScalar, isNumber]
+  | bool b => cases an <;> cases fn <;> cases b <;> simp_all [checkScalar, isNumber, pyFloat, FVal.lt]
+  | npbool b => cases an <;> cases fn <;> simp_all [checkScalar, isNumber]
+  | str t => cases an <;> cases fn <;> simp_all [checkScalar, isNumber]
+  | obj => cases an <;> cases fn <;> simp_all [checkScalar, isNumber]
+  | seq xs => cases an <;> cases fn <;> simp_all [checkScalar, isNumber]
+  | arr sh d => cases an <;> cases fn <;> simp_all [checkScalar, isNumber]
 
+example : checkScalar true false .cplx = .error .badUserInput := by rfl
 example : checkScalar true true (.num 0) = .ok (.scalar (.fin 0)) := by rfl
 example : checkScalar true true (.num (-1)) = .error .badUserInput := by rfl
 example : checkScalar true false (.num (-1)) = .ok (.scalar (.fin (-1))) := by rfl
 example : checkScalar true true (.str "3") = .error .badUserInput := by rfl
 example : checkScalar true true (.bool true) = .ok (.scalar (.fin 1)) := by rfl
 example : checkScalar true true (.npbool true) = .error .badUserInput := by rfl
-example : checkScalar true true .cplx = .error (.foreign "TypeError") := by rfl
+example : checkScalar true true .cplx = .error .badUserInput := by rfl
 example : checkScalar false false .none = .error .badUserInput := by rfl
 
 /-! ## check_format_input_vector2 (TriangularMesh.from_mesh) -/
@@ -1047,7 +1048,7 @@ theorem skeleton_is_modelled :
       [ ("is_array_like", ["if not isinstance(inp, (list, tuple, np.ndarray))", "  raise MagpylibBadUserInput"]),
         ("make_float_array", ["try", "  inp_array = np.array(inp, dtype=float)", "except Exception", "  raise MagpylibBadUserInput", "return inp_array"]),
         ("check_array_shape", ["if inp.ndim in dims", "  if shape_m1 == 'any' or inp.shape[-1] == shape_m1", "    if length is None or len(inp) == length", "      return None", "raise MagpylibBadUserInput"]),
-        ("check_format_input_scalar", ["if allow_None", "  if inp is None", "    return None", "if not isinstance(inp, numbers.Number)", "  raise MagpylibBadUserInput", "inp = float(inp)", "if forbid_negative", "  if inp < 0", "    raise MagpylibBadUserInput", "return inp"]),
+        ("check_format_input_scalar", ["if allow_None", "  if inp is None", "    return None", "if not isinstance(inp, numbers.Number)", "  raise MagpylibBadUserInput", "try", "  inp = float(inp)", "except (TypeError, OverflowError)", "  raise MagpylibBadUserInput", "if forbid_negative", "  if inp < 0", "    raise MagpylibBadUserInput", "return inp"]),
         ("check_format_input_vector", ["if allow_None", "  if inp is None", "    return None", "is_array_like(...)", "inp = make_float_array(...)", "check_array_shape(...)", "if isinstance(reshape, tuple)", "  if inp.size == 0", "    raise MagpylibBadUserInput", "  return np.reshape(inp, reshape)", "if forbid_negative0", "  if np.any(inp <= 0)", "    raise MagpylibBadUserInput", "return inp"]),
         ("check_format_input_vector2", ["is_array_like(...)", "inp = make_float_array(...)", "for (d1, d2) in zip(inp.shape, shape)", "  if d2 is not None", "    if d1 != d2", "      raise ValueError", "return inp"]),
         ("check_format_input_vertices", ["inp = check_format_input_vector(...)", "if inp is not None", "  if inp.shape[0] < 2", "    raise MagpylibBadUserInput", "return inp"]),
